@@ -12,14 +12,14 @@ def expectedC01 : List (String × String) := [
   ("file:compat.py", "2a259e16acd200bc"),
   ("file:config.py", "142bde514c82c29d"),
   ("file:io/db.py", "29a8207a5d7ac50e"),
-  ("file:io/json.py", "5e1ef8b67f567a77"),
+  ("file:io/json.py", "88171728b8aebfec"),
   ("file:io/sources.py", "7c2b0cb2619a6b10"),
   ("file:transform/hashjoins.py", "b948265980fadaea"),
   ("file:transform/sorts.py", "137f7e8a70e043fe"),
   ("file:util/base.py", "771a68108eeb730d"),
   ("file:util/materialise.py", "66208e10041a09c8"),
   ("file:util/random.py", "5ef62df76549c098"),
-  ("io.json.DictsGeneratorView", "814ca50f549ea08b"),
+  ("io.json.DictsGeneratorView", "c8aa475e2b283f0e"),
   ("transform.hashjoins.HashJoinView", "412a56e0830fe87a"),
   ("transform.hashjoins.HashLeftJoinView", "763079af6f690813"),
   ("transform.hashjoins.HashRightJoinView", "74040bd4cabc24ca"),
